@@ -89,6 +89,21 @@ class RxProxy:
             return self.real.match(s)
         return self._match_at(s, 0) is not None
 
+    def search(self, s):
+        s = ST.sym(s)
+        if not isinstance(s, ST.SymStr):
+            return self.real.search(s)
+        for i in range(len(s) + 1):
+            if self._match_at(s, i) is not None:
+                return True
+        return None
+
+    def fullmatch(self, s):
+        s = ST.sym(s)
+        if not isinstance(s, ST.SymStr):
+            return self.real.fullmatch(s)
+        return self._match_at(s, 0) == len(s) or None
+
     def split(self, s, maxsplit=0):
         s = ST.sym(s)
         if not isinstance(s, ST.SymStr):
